@@ -80,6 +80,7 @@ type boundsCtx struct {
 	fitBusy map[ssa.Value]bool
 	// substitution of parameters by caller-side terms (caller-established rule)
 	visitingPhi map[*ssa.Phi]bool
+	assumed     []lin // documented preconditions of the function (c04Assumes), as facts lin ≤ 0
 }
 
 // einfo: an etype-dependent product or quotient: left (op) right, where right is made of constant
@@ -962,7 +963,7 @@ func (bc *boundsCtx) atomRange(a atom) (lo, hi int64, hasLo, hasHi bool) {
 			return 0, 0, false, false
 		}
 		return lo, hi, true, true
-	case 'e':
+	case 'e', 'x':
 		return
 	case 'c':
 		lo, hasLo = 0, true
@@ -1349,6 +1350,8 @@ func (bc *boundsCtx) extraFacts(g lin, facts []lin, at ssa.Instruction) []lin {
 				out = append(out, bc.contractFacts(a)...)
 				out = append(out, bc.remFacts(a, facts)...)
 				pf := bc.phiFacts(a)
+				pf = append(pf, bc.strideFacts(a, at)...)
+				pf = append(pf, bc.resultIntFacts(a, at)...)
 				out = append(out, pf...)
 				for _, f := range pf {
 					visit(f)
@@ -1358,6 +1361,7 @@ func (bc *boundsCtx) extraFacts(g lin, facts []lin, at ssa.Instruction) []lin {
 				out = append(out, bc.lenLin(a.v, 0).add(linAtom(a), -1))
 			case 'l':
 				lf := bc.sameLenFacts(a, at)
+				lf = append(lf, bc.resultLenFacts(a, at)...)
 				lf = append(lf, bc.splitFacts(a, at)...)
 				out = append(out, lf...)
 				for _, f := range lf {
@@ -1477,6 +1481,7 @@ func (bc *boundsCtx) Prove(g lin, at ssa.Instruction) bool {
 // atoms involved.
 func (bc *boundsCtx) factsAt(g lin, at ssa.Instruction) []lin {
 	facts := append([]lin{}, bc.blockFacts(at.Block())...)
+	facts = append(facts, bc.assumed...)
 	facts = append(facts, bc.sliceFacts(at)...)
 	facts = append(facts, bc.extraFacts(g, facts, at)...)
 	return facts
@@ -1798,6 +1803,50 @@ func (bc *boundsCtx) splitFacts(a atom, at ssa.Instruction) []lin {
 			return []lin{linConst(2).add(linAtom(a), -1)}
 		}
 	}
+	// the string is a parameter of an unexported function: the Contains test may be the callers'
+	// (a helper extracted from below the test) — it must dominate every call, on the argument
+	if p, isP := bc.canon(call.Call.Args[0]).(*ssa.Parameter); isP && bc.fn.Parent() == nil && bc.fn.Object() != nil && !bc.fn.Object().Exported() && bc.inlineBusy < 2 {
+		pi := -1
+		for i, fp := range bc.fn.Params {
+			if fp == p {
+				pi = i
+			}
+		}
+		n := bc.w.CallGraph().Nodes[bc.fn]
+		if pi < 0 || n == nil || len(n.In) == 0 {
+			return nil
+		}
+		for _, e := range n.In {
+			site, ok := e.Site.(*ssa.Call)
+			if !ok || site.Call.IsInvoke() || site.Call.StaticCallee() != bc.fn || pi >= len(site.Call.Args) || site.Parent() == nil {
+				return nil
+			}
+			cb := newBoundsCtx(bc.w, site.Parent())
+			cb.inlineBusy = bc.inlineBusy + 1
+			found := false
+			for _, dc := range domConds(site.Block()) {
+				cc, ok := dc.cond.(*ssa.Call)
+				if !ok || !dc.holds {
+					continue
+				}
+				g := cc.Call.StaticCallee()
+				if g == nil || calleeName(g) != "strings.Contains" {
+					continue
+				}
+				s2, ok := cc.Call.Args[1].(*ssa.Const)
+				if !ok || s2.Value == nil || s2.Value.Kind() != constant.String || constant.StringVal(s2.Value) != constant.StringVal(sep.Value) {
+					continue
+				}
+				if cb.canon(cc.Call.Args[0]) == cb.canon(site.Call.Args[pi]) {
+					found = true
+				}
+			}
+			if !found {
+				return nil
+			}
+		}
+		return []lin{linConst(2).add(linAtom(a), -1)}
+	}
 	return nil
 }
 
@@ -2007,6 +2056,163 @@ func (bc *boundsCtx) sameLenFacts(a atom, at ssa.Instruction) []lin {
 	return []lin{d, d.neg()}
 }
 
+// resultLenFacts: v, err := g(…) of a module function g, used where err is known to be nil: when
+// every success return of g hands back a slice whose length is one linear form over g's
+// parameters (b[off:off+size] has length size), len(v) is that form over the arguments.
+func (bc *boundsCtx) resultLenFacts(a atom, at ssa.Instruction) []lin {
+	ex, ok := a.v.(*ssa.Extract)
+	if !ok || bc.inlineBusy > 2 {
+		return nil
+	}
+	call, ok := ex.Tuple.(*ssa.Call)
+	if !ok || call.Call.IsInvoke() {
+		return nil
+	}
+	g := call.Call.StaticCallee()
+	if g == nil || len(g.Blocks) == 0 || g.Pkg == nil || !inModule(g.Pkg.Pkg.Path()) || g == bc.fn {
+		return nil
+	}
+	res := g.Signature.Results()
+	n := res.Len()
+	if n < 2 || res.At(n-1).Type().String() != "error" || ex.Index >= n-1 || !bc.errNilAt(call, at) {
+		return nil
+	}
+	cb := newBoundsCtx(bc.w, g)
+	cb.inlineBusy = bc.inlineBusy + 1
+	var out *lin
+	for _, b := range g.Blocks {
+		ret, ok := lastInstr(b).(*ssa.Return)
+		if !ok || b == g.Recover {
+			continue
+		}
+		rs := RetResults(ret)
+		if len(rs) != n {
+			return nil
+		}
+		if c, isC := rs[n-1].(*ssa.Const); !isC || c.Value != nil {
+			// an exit that may carry an error: if it can also carry nil its value counts
+			if !isC {
+				if _, isCall := rs[n-1].(*ssa.Call); !isCall {
+					if _, isMI := rs[n-1].(*ssa.MakeInterface); !isMI {
+						return nil
+					}
+				}
+			}
+			continue
+		}
+		l, ok := translateLin(cb, bc, g, call, cb.lenLin(rs[ex.Index], 0))
+		if !ok {
+			return nil
+		}
+		if out != nil && bc.linString(*out) != bc.linString(l) {
+			return nil
+		}
+		l2 := l
+		out = &l2
+	}
+	if out == nil {
+		return nil
+	}
+	d := linAtom(a).add(*out, -1)
+	return []lin{d, d.neg()}
+}
+
+// resultIntFacts: n, err := g(…) of a module function g, used where err is known to be nil: the
+// facts that dominate g's (single) success return and speak about the returned integer — a
+// range check performed inside a helper (0 ≤ n ≤ len(b)) — hold for n in the caller, with g's
+// parameters read as the arguments.
+func (bc *boundsCtx) resultIntFacts(a atom, at ssa.Instruction) []lin {
+	ex, ok := a.v.(*ssa.Extract)
+	if !ok || a.kind != 'v' || bc.inlineBusy > 2 || at == nil {
+		return nil
+	}
+	call, ok := ex.Tuple.(*ssa.Call)
+	if !ok || call.Call.IsInvoke() {
+		return nil
+	}
+	g := call.Call.StaticCallee()
+	if g == nil || len(g.Blocks) == 0 || g.Pkg == nil || !inModule(g.Pkg.Pkg.Path()) || g == bc.fn {
+		return nil
+	}
+	res := g.Signature.Results()
+	n := res.Len()
+	if n < 2 || res.At(n-1).Type().String() != "error" || ex.Index >= n-1 || !bc.errNilAt(call, at) {
+		return nil
+	}
+	if _, _, isInt := intInfo(res.At(ex.Index).Type(), bc.intBits); !isInt {
+		return nil
+	}
+	var succ *ssa.Return
+	for _, b := range g.Blocks {
+		ret, ok := lastInstr(b).(*ssa.Return)
+		if !ok || b == g.Recover {
+			continue
+		}
+		rs := RetResults(ret)
+		if len(rs) != n {
+			return nil
+		}
+		if c, isC := rs[n-1].(*ssa.Const); isC && c.Value == nil {
+			if succ != nil {
+				return nil
+			}
+			succ = ret
+			continue
+		}
+		// the other exits must carry a non-nil error for certain
+		nonNil := false
+		if ec, isCall := rs[n-1].(*ssa.Call); isCall {
+			if f := ec.Call.StaticCallee(); f != nil {
+				switch calleeName(f) {
+				case "fmt.Errorf", "errors.New":
+					nonNil = true
+				}
+			}
+		}
+		if mi, isMI := rs[n-1].(*ssa.MakeInterface); isMI {
+			if _, isPtr := mi.X.Type().Underlying().(*types.Pointer); !isPtr {
+				nonNil = true
+			}
+		}
+		if !nonNil {
+			return nil
+		}
+	}
+	if succ == nil {
+		return nil
+	}
+	cb := newBoundsCtx(bc.w, g)
+	cb.inlineBusy = bc.inlineBusy + 1
+	rl := cb.lin(RetResults(succ)[ex.Index])
+	// the returned value as one callee atom (plus a constant)
+	if len(rl.t) != 1 {
+		return nil
+	}
+	var ra atom
+	var rc int64
+	for k, c := range rl.t {
+		ra, rc = k, c
+	}
+	if rc != 1 {
+		return nil
+	}
+	var out []lin
+	for _, f := range cb.factsAt(rl, succ) {
+		k, has := f.t[ra]
+		if !has {
+			continue
+		}
+		// f = k·ra + rest ≤ 0 with ra = a - rl.k
+		rest := f.add(linAtom(ra), -k)
+		tr, ok := translateLin(cb, bc, g, call, rest)
+		if !ok {
+			continue
+		}
+		out = append(out, tr.add(linAtom(a), k).plus(-k*rl.k))
+	}
+	return out
+}
+
 // errNilAt: the last result of call is known to be nil at instruction at (a dominating branch tested it).
 func (bc *boundsCtx) errNilAt(call *ssa.Call, at ssa.Instruction) bool {
 	n := call.Call.Signature().Results().Len()
@@ -2210,6 +2416,60 @@ func (bc *boundsCtx) phiFacts(a atom) []lin {
 		out = append(out, (*init).add(linAtom(a), -1))
 	}
 	return out
+}
+
+// strideFacts: for i := c0; i < N; i += s (constants, s > 0) the values i takes in the body are
+// c0, c0+s, …: inside the body i ≤ c0 + s·⌊(N-1-c0)/s⌋, which is tighter than N-1 when s does
+// not divide N-c0 evenly … and is what makes b[i:i+s] provable against a length of exactly N.
+func (bc *boundsCtx) strideFacts(a atom, at ssa.Instruction) []lin {
+	x, ok := a.v.(*ssa.Phi)
+	if !ok || a.kind != 'v' || at == nil || len(x.Edges) != 2 {
+		return nil
+	}
+	var c0, step int64
+	haveInit, haveStep := false, false
+	for _, e := range x.Edges {
+		if k, ok := constInt(e); ok {
+			c0, haveInit = k, true
+			continue
+		}
+		if bo, ok := bc.canon(e).(*ssa.BinOp); ok && bo.Op == token.ADD {
+			if bc.canon(bo.X) == ssa.Value(x) {
+				if k, ok := constInt(bo.Y); ok && k > 0 {
+					step, haveStep = k, true
+				}
+			} else if bc.canon(bo.Y) == ssa.Value(x) {
+				if k, ok := constInt(bo.X); ok && k > 0 {
+					step, haveStep = k, true
+				}
+			}
+		}
+	}
+	if !haveInit || !haveStep || step < 2 {
+		return nil
+	}
+	hb := x.Block()
+	if len(hb.Instrs) == 0 {
+		return nil
+	}
+	iff, ok := hb.Instrs[len(hb.Instrs)-1].(*ssa.If)
+	if !ok {
+		return nil
+	}
+	bo, ok := iff.Cond.(*ssa.BinOp)
+	if !ok || bo.Op != token.LSS || bc.canon(bo.X) != ssa.Value(x) {
+		return nil
+	}
+	n, ok := constInt(bo.Y)
+	if !ok || n <= c0 {
+		return nil
+	}
+	body := hb.Succs[0]
+	if !(body == at.Block() || (len(body.Preds) == 1 && body.Dominates(at.Block()))) {
+		return nil
+	}
+	last := c0 + step*((n-1-c0)/step)
+	return []lin{linAtom(a).plus(-last)} // x - last ≤ 0
 }
 
 // modFields: the field paths (".f3.f1" relative to parameter pi of module function g) that g, and
